@@ -181,15 +181,15 @@ func ZZ_C10_podeni_reconcile() {
 	zz.Assert(zz.Implies(failed, err != nil), "a failing cloud / API call is reported as an error (the request is retried)")
 	// every status write follows the documented phase graph
 	for _, o := range w.ops {
-		if o.kind == "status-patch" {
-			zz.Assert(o.rec.Status.Phase == old, "a phase change is written with a conflict-checked update, never with an unconditional patch (the other controller may have moved the record meanwhile)")
+		if o.kind == "status-patch" || o.kind == "status-update" {
+			zz.Assert(o.kind == "status-update" || o.rec.Status.Phase == old, "a phase change is written with a conflict-checked update, never with an unconditional patch (the other controller may have moved the record meanwhile)")
 		}
-		if o.kind == "status-update" && o.rec.Status.Phase != old {
+		if (o.kind == "status-update" || o.kind == "status-patch") && o.rec.Status.Phase != old {
 			nw := o.rec.Status.Phase
 			ok := ((old == v1beta1.ENIPhaseInitial || old == v1beta1.ENIPhaseBinding) && nw == v1beta1.ENIPhaseBind) || (old == v1beta1.ENIPhaseDetaching && nw == v1beta1.ENIPhaseUnbind)
 			zz.Assert(ok, "the PodENI controller only moves initial/binding -> bound and detaching -> unbound")
 		}
-		if o.kind == "status-update" {
+		if o.kind == "status-update" || o.kind == "status-patch" {
 			zz.Assert(len(o.rec.Spec.Allocations) == nAlloc, "a status write keeps the allocations (interface and address) of the record")
 		}
 	}
